@@ -423,7 +423,7 @@ def harvested_key_cases(primary, secondary, full=False, known=(), vocab=None):
     the key sets of the model by level (for the crowded contexts; None: no crowded contexts).
     Quick (`full=False`): primary keys: core values in every context, the other values in one context in rotation, four
     values in every crowded context; secondary keys: four values in four contexts.  Thorough: the full product for the
-    primary keys, core values in every context for the secondary ones.
+    primary keys (crowded contexts: core values), core values in every context for the secondary ones (crowded: two).
     Each case carries `x_without`: the same torrent with the key absent, so that the model can be evaluated without it
     (C08_unknown_key_irrelevant)."""
     ctxs = key_contexts(full)
@@ -455,14 +455,14 @@ def harvested_key_cases(primary, secondary, full=False, known=(), vocab=None):
             for vi, v in enumerate(KEY_VALUES_MORE):
                 for ctx in (ctxs if full else [ctxs[(ki + li + vi) % len(ctxs)]]):
                     add(level, key, v, ctx, 'primary', fi=vi)
-            for vi, v in enumerate(KEY_VALUES_CORE + KEY_VALUES_MORE if full else KEY_VALUES_CROWD):
+            for vi, v in enumerate(KEY_VALUES_CORE if full else KEY_VALUES_CROWD):
                 for ci, ctx in enumerate(crowd):
                     if level in ctx[3] or (ctx[3] == ('cross',) and vi < 2 and level != 'file'):
                         add(level, key, v, ctx[:3], 'primary', fi=vi + ci)
     for ki, key in enumerate(sorted(secondary)):
         for level in KEY_LEVELS:
             for vi, v in enumerate(KEY_VALUES_CORE if full else KEY_VALUES_SECONDARY):
-                for ci, ctx in enumerate(ctxs + crowd if full else sec_ctx):
+                for ci, ctx in enumerate(ctxs + (crowd if vi in (3, 5) else []) if full else sec_ctx):
                     add(level, key, v, ctx[:3], 'secondary', fi=vi + ci)
     return out
 
